@@ -24,9 +24,12 @@ def run_checks(props, env):
     def one(p):
         c = subprocess.run([os.path.join(VERIF, "check"), p], capture_output=True, text=True, env=env)
         rules = sorted(set(re.findall(r"^  rule (\S+) @", c.stdout, re.M)))
-        return p, c.returncode, rules, [l.strip()[:200] for l in c.stdout.splitlines() if l.startswith("  rule ")][:2]
+        first = [l.strip()[:200] for l in c.stdout.splitlines() if l.startswith("  rule ")][:2]
+        if c.returncode != 0 and not rules:      # not a rule verdict: keep the tail of the output for diagnosis
+            first = [l[:300] for l in (c.stdout + c.stderr).splitlines() if not l.startswith("WARNING")][-6:]
+        return p, c.returncode, rules, first
     first = one(props[0])          # primes the facts cache for this tree
-    if first[1] == 2:              # infrastructure hiccup (exit 2 = checker error, never a verdict): one retry
+    if first[1] == 2 or (first[1] != 0 and not first[2]):   # infrastructure hiccup (checker error, never a verdict): one retry
         first = one(props[0])
     with ThreadPoolExecutor(max_workers=3) as ex:
         rest = list(ex.map(one, props[1:]))
@@ -67,7 +70,7 @@ def worker(w, kind, q, res, lock):
                 res[i] = {"verdict": "CHECKER-ERROR" if errors else ("SILENT" if not alarms else "FALSE-ALARM"), "alarms": alarms}
             else:
                 res[i] = {"verdict": "DETECTED" if any(rc == 1 for p, rc, r, f in out) else "MISSED", "rules": [(p, r) for p, rc, r, f in out]}
-            print(i, res[i]["verdict"], [(a[0], a[2]) for a in alarms][:3] if kind == "neutral" else res[i]["rules"], flush=True)
+            print(i, res[i]["verdict"], [(a[0], a[2] or a[3]) for a in alarms][:3] if kind == "neutral" else res[i]["rules"], flush=True)
             with open(os.path.join(VERIF, ".cache", "corpus_%s.json" % kind), "w") as fh:
                 json.dump(res, fh, indent=1, sort_keys=True)
 
